@@ -132,7 +132,7 @@ def main():
             except Unsupported as e:
                 inconclusive.append('%s: %s'%(agg['name'],e)); res=[]
             for s,r in zip(samples,res):
-                if matches_expect(r,s['expect']) and summary_matches(r,s.get('expect_summary')) and (not s.get('expect_no_events') or all(not ev for ev in r.get('events',[]))): cov['traces_validated_against_impl']+=1
+                if matches_expect(r,s['expect']) and all(r.get(k)==want for k,want in (s.get('confirm') or {}).items()) and summary_matches(r,s.get('expect_summary')) and (not s.get('expect_no_events') or all(not ev for ev in r.get('events',[]))): cov['traces_validated_against_impl']+=1
                 else:
                     inconclusive.append('%s: translator validation mismatch: interpreter=%s native=%s scenario=%s'%(agg['name'],s['expect'],r,json.dumps(s['scenario'])[:300]))
             for s,r in list(zip(samples,res))[:2]:
@@ -150,7 +150,7 @@ def main():
                     inconclusive.append('%s: %s'%(agg['name'],e)); res=[]
                 for v,r in zip(todo,res):
                     cov['counterexamples_replayed']+=1
-                    if matches_expect(r,v['predicted']): confirmed.append((v,r))
+                    if matches_expect(r,v['predicted']) and all(r.get(k)==want for k,want in (v.get('confirm') or {}).items()): confirmed.append((v,r))
                     else: inconclusive.append('%s: counterexample (%s) does not reproduce natively: predicted=%s native=%s scenario=%s'%(agg['name'],kind,v['predicted'],r,json.dumps(v['scenario'])[:400]))
             else:
                 inconclusive.append('%s: violation %s without replayable scenario'%(agg['name'],kind))
